@@ -33,6 +33,8 @@ class Profile:
         self.p_event_param_guard = 0.05
         self.p_active_guard = 0.12     # guards that also read the configuration through active()
         self.active_in_actions = True  # actions may read the configuration through active()
+        self.p_cross_region = 0.0      # probability of KEEPING a transition that crosses between sibling regions (outside section 2)
+        self.p_dup_transition = 0.04   # probability of declaring one transition twice (equal transitions are legal)
         self.use_k = False             # actions may update k, a variable that exists only in the initial context
         self.use_tick = True           # actions may call tick() (a callable of the initial context moving the clock)
         self.shuffle_names = True
@@ -295,7 +297,8 @@ class Gen:
             else:
                 tgt = rng.choice(order)
             if not wf7(src, tgt):
-                continue
+                if not (rng.random() < p.p_cross_region and states[tgt][0] not in ('shallow', 'deep')):
+                    continue
             ev = None if rng.random() < p.p_eventless else rng.choice(p.events or EVENTS)
             if p.unique_source_event and any(t.source == src and t.event == ev for t in made_t):
                 continue
@@ -308,6 +311,13 @@ class Gen:
             t = Transition(src, tgt, event=ev, guard=guard, action=act, priority=prio)
             self.contract_on(t)
             made_t.append(t)
+        if made_t and rng.random() < p.p_dup_transition:
+            t = rng.choice(made_t)
+            d = Transition(t.source, t.target, event=t.event, guard=t.guard, action=t.action, priority=t.priority)
+            d.preconditions.extend(t.preconditions)
+            d.postconditions.extend(t.postconditions)
+            d.invariants.extend(t.invariants)
+            made_t.append(d)
         rng.shuffle(made_t)
         for t in made_t:
             sc.add_transition(t)
